@@ -249,11 +249,28 @@ impl<Endpoint: Ord + Clone> BlockHandler<Endpoint> {
 
         if let Some(block2) = maybe_block2 {
             if let Some(ref response) = state.cached_response {
+                // A follow-up request may name a larger block size than the
+                // one negotiated for this response, which is what fits the
+                // message size: serve the same offset at the negotiated
+                // size instead (RFC 7959 section 2.4).
+                let block2 = match state.cached_response_size_exponent {
+                    Some(szx) if block2.size_exponent > szx => {
+                        let ratio = 1usize << (block2.size_exponent - szx);
+                        BlockValue::new(
+                            usize::from(block2.num) * ratio,
+                            block2.more,
+                            16 << szx,
+                        )
+                        .map_err(HandlingError::bad_request)?
+                    }
+                    _ => block2,
+                };
                 let has_more_chunks = Self::maybe_serve_cached_response(
                     request, block2, response,
                 )?;
                 if !has_more_chunks {
-                    state.cached_response = None
+                    state.cached_response = None;
+                    state.cached_response_size_exponent = None;
                 }
                 return Ok(true);
             }
@@ -358,6 +375,8 @@ impl<Endpoint: Ord + Clone> BlockHandler<Endpoint> {
                     )?
                 {
                     let cached_response = response.message.clone();
+                    let negotiated_size_exponent =
+                        request_block2.size_exponent;
                     let has_more_chunks = Self::maybe_serve_cached_response(
                         request,
                         request_block2,
@@ -365,6 +384,8 @@ impl<Endpoint: Ord + Clone> BlockHandler<Endpoint> {
                     )?;
                     if has_more_chunks {
                         state.cached_response = Some(cached_response);
+                        state.cached_response_size_exponent =
+                            Some(negotiated_size_exponent);
                         return Ok(true);
                     }
                 }
@@ -524,6 +545,10 @@ pub struct BlockState {
     /// Packet we need to serve from if any future block-wise transfer requests
     /// come in.
     cached_response: Option<Packet>,
+
+    /// Size exponent of the block size negotiated for `cached_response`:
+    /// follow-up requests are not served larger blocks than that.
+    cached_response_size_exponent: Option<u8>,
 
     /// Payload we are building up from a series of client requests.  Note that
     /// there is a deliberate lack of symmetry between the cached response and
